@@ -131,6 +131,10 @@ def replay_interp(c, engine='interp'):
         if 'mem_addr' not in nat and nat.get('status') in ('signal', 'panic') and not b['patch']:
             # the native run died or hung before reporting its buffers; no pointer patches, so the reference run does not depend on the addresses
             nat = dict(nat, mem_addr=0x10000000, mbuff_addr=0x20000000, extra_addr=0x30000000, msg=nat.get('msg', 'timeout' if nat.get('sig') == 14 else ''))
+        if 'mem_addr' not in nat and engine == 'interp' and (nat.get('status') == 'panic' or (nat.get('status') == 'signal' and nat.get('sig') != 14)):
+            # the interpreter itself crashed (abort / fault / panic) on this program: that is the observation, whatever the reference says
+            c['replay'] = dict(prog=b['prog'].hex() if len(b['prog']) < 4096 else f'<{len(b["prog"])//8} slots>', mem=b['mem'].hex(), mbuff=b['mbuff'].hex(), patch=b['patch'], allowed=b['allowed'], helpers=helpers, profile=prof, native=nat)
+            return True, f'[{prof}] the interpreter crashes natively: {nat}'
         rf = run_ref(b, nat, helpers) if 'mem_addr' in nat else dict(status='illformed', reason=f'native run gave no buffer addresses: {str(nat)[:200]}')
         df, msg = differs(nat, rf)
         c['replay'] = dict(prog=b['prog'].hex() if len(b['prog']) < 4096 else f'<{len(b["prog"])//8} slots>', mem=b['mem'].hex(), mbuff=b['mbuff'].hex(),
